@@ -463,6 +463,10 @@ class ExtrasMixin:
         recv = sch
         return VBool(z3.Function("mv#ok", AnySort, AnySort, z3.BoolSort())(self.inject(recv), self.inject(d)))
 
+    def spec_is_obj(self, node, frame):
+        v = self.eval(node.args[0], frame)
+        return VBool(isinstance(v, VRef) and v.kind == "obj")
+
     def spec_truthy(self, node, frame):
         return VBool(E.simp(self.truthy(self.eval(node.args[0], frame))))
 
